@@ -117,6 +117,9 @@ def run(ctx):
     f9 = F(10810546875, 10 ** 9)
     cs = [dict(op='construct', how='obj', text='', minor=0, sfv=V('int', 1), sf=qj(1), mode='ROUND_HALF_EVEN',
                amt=qj(f9), amtv=V('dec', f9))]
+    # spellings that are not in the table although a table code is close (asked before that code is registered)
+    unreg = [c for c in codes if c != 'EUR'][:: max(1, len(codes) // (8 if quick else 60))]
+    near = [dict(op='iso', code=sp) for c in unreg for sp in (c.lower(), ' ' + c, c + ' ', c.title(), c)]
     cs += [dict(op='iso', code=c) for c in codes]
     cs += [dict(op='iso', code=c) for c in ('XAU', 'XXX', 'XTS', 'eur', 'EURO', 'E', '', 'ABC', 'XBA', 'DEM', 'ZZZ')]
     cs.append(dict(op='isocount'))
@@ -142,9 +145,17 @@ def run(ctx):
             for (a, b) in (([5, 1], [0, 1]), ([0, 1], [5, 1]), ([0, 1], [0, 1]), ([5, 1], [4, 1000]), ([-5, 1], [-5, 1])):
                 k += 1
                 cs.append(dict(op='mix', f=f, c1=c1, c2=c2, a=a, b=b, k=k))
+    # a converter was active in a with-block that has since been left (normally or by an exception): "no converter
+    # active" again.  These run last within their process (a leaked converter would colour everything after it).
+    for (c1, c2) in (('EUR', 'USD'), ('JPY', 'KWD'), ('USD', 'USD')):
+        for pre in ('block', 'block_exc'):
+            for f in OPS:
+                k += 1
+                cs.append(dict(op='mix', f=f, c1=c1, c2=c2, a=[7, 1], b=[3, 1], k=k, pre=pre))
     cs += newcur_cases()
     cs += construct_cases(quick)
     moneycheck.model(ctx)
+    moneycheck.judge(ctx, near, 'iso-spellings', codes=['EUR'])
     moneycheck.judge(ctx, cs, 'iso+mix', codes=sample)
     ctx.exhaustive['ISO 4217 table entries'] = True
 
